@@ -28,13 +28,13 @@ CLAIMS = {
             "tail vertex of each signed edge through abs(), orphan removal, section markers, interface reference = mean of its mesh edges. The continuation-line state machine is not decided.", "3/C14"),
     "C17": ("formula identity of window / position / statistic / normalisation on evaluator terms, KEY agreement of writer and reader",
             "Static necessary-condition analysis: (2*layers+1)^2 window, pixel position = vertex*rescale+offset with matching axes in both code paths, mean-of-medians and "
-            "set-sum/polyline-length statistics (hence linear in the image), 'average' divides by the mean of the same dictionary, values keyed and written back by list position.", "3/C17"),
+            "set-sum/polyline-length statistics (hence linear in the image), 'average' divides by the mean of the same dictionary, values keyed and written back by list position under every normalisation (None included), band positions are integer pixels.", "3/C17"),
     "C18": ("formula identity of the 2x2 tensor (same-value off-diagonal, one selection for all sums), guard of the zero branch, KEY injectivity and writer/reader agreement",
             "Static necessary-condition analysis: the stored tensor equals [[(-Sum pA+Txx)/Sum A, Txy/Sum A],[Txy/Sum A, (-Sum pA+Tyy)/Sum A]] over one selection, which yields symmetry, "
-            "joint linearity and -p*I; zero tensor iff the selected area is 0; grid centres reported = centres used; composite key injective and shared by writer and reader.", "3/C18"),
+            "joint linearity and -p*I; zero tensor iff the selected area is 0 and never a value carried over from the previous grid cell; grid centres reported = centres used; composite key injective and shared by writer and reader; principal stresses reset on every call.", "3/C18"),
     "C19": ("DIV rule (unguarded division by a difference of single coordinates) over the call-graph closure, constants, sibling rules for the sign-encoded ids, shoelace identity",
             "Static necessary-condition analysis: no path reachable from create_lattice_elements divides by a rounded coordinate difference without a non-zero guard (axis-parallel "
-            "ridges), corner points rounded to 3 decimals with x/y twins, ids start at 1 and reversed use is encoded/decoded by sign consistently, orientation key from the shoelace sign. "
+            "ridges), corner points rounded to 3 decimals with x/y twins, a segment becomes an edge only between two different vertex numbers (corners that round to one point), every region is examined and the over-size filter removes exactly the bounded over-size ones, ids start at 1 and reversed use is encoded/decoded by sign consistently, orientation key from the shoelace sign. "
             "Agreement with scipy's Voronoi diagram is not decided.", "3/C19"),
     "C04": ("row-shape and formula identity on evaluator terms, unit typing of the turning estimate, small array-algebra normal form, alignment of the dropped-column list",
             "Static necessary-condition analysis: Young-Laplace rows have exactly the two +-1 entries in the columns of the interface's own cells with the "
@@ -50,7 +50,7 @@ CLAIMS = {
     "C09": ("pairing (register/unregister) on evaluator events, who-may-write over the package, key/id agreement at construction sites, delete-discipline and mutation-under-iteration (destructor effects) rules",
             "Static necessary-condition analysis of the back-reference bookkeeping: constructor/destructor/replace_vertex pairing for SmallEdge and Cell, only Vertex helpers "
             "(and SmallEdge.replace_vertex) mutate back-reference lists, only three functions mutate cell cycles, every object is stored under its own id, each of the "
-            "vertex-deletion sites deletes or re-points incident edges first and updates the cells, and no loop iterates a live back-reference list while deleting from it. "
+            "vertex-deletion sites deletes or re-points incident edges first and updates the cells, no loop iterates a live back-reference list while deleting from it, every re-pointing walks the whole owner list, and the skeleton parser creates an edge for every consecutive pair of a contour including (last, first). "
             "Object identity and topology of runtime meshes are not decided.", "3/C09"),
     "C02": ("placement/alignment and guard analysis on evaluator terms, formula identity of the tangent, covariance kind of the orientation step",
             "Static necessary-condition analysis of the assembled system: unknown/equation layout, row-pair offsets and index advance under one guard, "
@@ -59,13 +59,13 @@ CLAIMS = {
             "circle fit. Per coefficient for every junction of every tissue; accuracy of the fitted centre is not decided. One known finding (F6).", "3/C02"),
     "C13": ("formula identity by algebraic value numbering with handler-path specialisation, row-placement alignment, guard domination, unit typing",
             "Static necessary-condition analysis: calculate_velocity equals (p1-p0)/(time[t1]-time[t0]) with the same neighbour frame for position and "
-            "time, the missing-partner handler yields exactly zero, each junction's components land in its own two rows, every rhs store is dominated "
+            "time, the missing-partner handler yields exactly zero, each junction's components land in its own two rows, every rhs store and every raise is dominated "
             "by the dynamic-mode condition, the adimensional divisor is the mean speed of exactly the written vectors and is what is reported. "
             "Correctness of the tracked partner is C12's geometric part and not decided.", "3/C13"),
     "C08": ("sibling-predicate canonicalisation (boolean normal forms with integer thresholds, membership normal form) + guard domination, over the ast",
             "Static necessary-condition analysis: the four hand-written copies of the internal/external predicate are reduced to canonical "
             "formulas over |cells(v)|>=2 / |cells(end)|>=3 and each must equal the statement's formula, so the copies cannot drift apart for any "
-            "mesh; duplicate suppression in both directions is a guard-domination obligation on every growth site of the interface list; "
+            "mesh; duplicate suppression in both directions is a guard-domination obligation on every growth site of the interface list (a de-duplication key must determine the whole vertex list); own_cells comes from the middle vertex in registration order; "
             "junction-degree thresholds and the tension-table filter are compared too. Does not decide correctness of the path-splitting algorithm.", "3/C08"),
     "C10": ("effect analysis over the call graph (who-may-write, typestate of build state), KIND of per-frame stores, index-chain alignment on evaluator terms",
             "Static necessary-condition analysis: who-may-write tables for tension/pressure/result stores, the transitive write set of "
@@ -75,7 +75,7 @@ CLAIMS = {
     "C16": ("sibling-predicate agreement, formula/guard matching on evaluator terms, NONE rule (mutator result bound), RANGE of defaults against arccos",
             "Static necessary-condition analysis: the three copies of the exclusion predicate equal 'both end junctions flagged', the flag is "
             "max over all pairs of arccos(dot) >= limit with tangents from the configured fit, the -1 re-insertion keeps output index and input "
-            "pointer aligned, no None-returning mutator result is bound on the solve path, and every default limit is unattainable.", "3/C16"),
+            "pointer aligned (numpy.insert with positions of the full list is recognised as misaligned), interfaces are not removed from the list being walked, the arccos argument is clipped, no None-returning mutator result is bound on the solve path, and every default limit is unattainable.", "3/C16"),
     "C20": ("formula identity by algebraic value numbering (cyclic-sum normal form) + homogeneity-degree typing + finite-set normal form, over the ast",
             "Static necessary-condition analysis: Cell.get_area is proved identical to the shoelace formula as a cyclic-sum normal form "
             "(sign convention, reversal, shift, translation and degree-2 scaling are algebraic corollaries), perimeter summand, "
